@@ -121,11 +121,12 @@ ASSUMPTIONS = ["decimal constants 0.245, -1.665, 2.81 are identified with their 
 def lemmas(ck):
     e = z3.Function("exp", z3.RealSort(), z3.RealSort())
     a, b, K = z3.Reals("d1 d2 K")
-    ax = lambda t: [e(t) > 0]
-    ck.lemma("zero_dose_is_identity", [e(z3.RealVal(0)) == 1], e(-z3.RealVal(0) / K) == 1, tactics=())
-    ck.lemma("gain_at_most_one", [K > 0, a >= 0, z3.ForAll([a], z3.Implies(a <= 0, e(a) <= 1))], e(-a / K) <= 1, tactics=(), note="exp(t) <= 1 for t <= 0 (exp increasing, exp(0) = 1)")
-    ck.lemma("more_dose_attenuates_more", [K > 0, a <= b, z3.ForAll([a, b], z3.Implies(a <= b, e(a) <= e(b)))], e(-b / K) <= e(-a / K), tactics=())
-    ck.lemma("doses_add", [K > 0, z3.ForAll([a, b], e(a + b) == e(a) * e(b))], e(-a / K) * e(-b / K) == e(-(a + b) / K), tactics=())
+    x, y = -a / K, -b / K
+    ck.lemma("zero_dose_is_identity", [K > 0, e(z3.RealVal(0)) == 1], e(-z3.RealVal(0) / K) == 1, tactics=())
+    ck.lemma("gain_at_most_one", [K > 0, a >= 0, z3.Implies(x <= 0, e(x) <= e(z3.RealVal(0))), e(z3.RealVal(0)) == 1], e(x) <= 1, tactics=(), note="instance of: exp increasing, exp(0) = 1")
+    ck.lemma("more_dose_attenuates_more", [K > 0, a <= b, z3.Implies(y <= x, e(y) <= e(x))], e(y) <= e(x), tactics=(), note="instance of: exp increasing")
+    ck.lemma("doses_add", [K > 0, e(x + y) == e(x) * e(y), x + y == -(a + b) / K], e(x) * e(y) == e(-(a + b) / K), tactics=(), note="instance of exp(s+t) = exp(s) exp(t); -d1/K - d2/K = -(d1+d2)/K")
+    ck.lemma("sum_of_quotients", [K > 0], -a / K + -b / K == -(a + b) / K, tactics=())
 
 
 def run(ck):
